@@ -38,3 +38,8 @@ Definition mz_lookup (method : string) : option mz_row := mz_find_row method mz_
 (* every method of the specification's class table is registered in the source *)
 Definition mz_all_registered : bool :=
   forallb (fun kc => mz_is_some (mz_lookup (fst kc))) mz_class_table.
+
+(* the origin construction the model transcribes (mz_from_zone) is the one the translator recognises in
+   JsonRpcConnection::MessageHandler now; an unrecognised shape (None) is covered by the correspondence run only *)
+Definition mz_origin_rule_ok : Prop :=
+  match f_mz_origin_rule with Some r => r = "claim_iff_sender_in_local_zone" | None => True end.
